@@ -136,7 +136,8 @@ func init() {
 		tr.vc.Assume(Implies(And(Le(Int(0), v), Lt(v, Pow2(256))), Le(n, Int(256))))
 		return Val{L: []*Term{n}}
 	}, ro)
-	// Bytes: a fresh slice holding the big-endian magnitude; only its length facts are modelled
+	// Bytes: a fresh slice holding the big-endian magnitude: its length, the absence of a
+	// leading zero byte and the value read back are modelled
 	m("Bytes", func(tr *FnTr, x ssa.Value, a []Val) Val {
 		v := tr.bigGet(a[0], x)
 		obj := tr.newObject("bigbytes")
@@ -149,6 +150,8 @@ func init() {
 		}
 		na := tr.vc.Fresh("bigbytes_arr", SArr)
 		tr.st.Mem = tr.vc.Def("mem", Store(tr.st.Mem, obj, na))
+		// minimal encoding: no leading zero byte
+		tr.vc.Assume(Implies(Lt(Int(0), n), And(Le(Int(1), Select(na, Int(0))), Le(Select(na, Int(0)), Int(255)))))
 		// the bytes read back as the same magnitude
 		tr.vc.DeclareUF("bebytes", []Sort{SArr, SInt, SInt}, SInt)
 		tr.vc.Assume(Eq(App("bebytes", SInt, na, Int(0), n), Ite(Lt(v, Int(0)), Neg(v), v)))
